@@ -1390,8 +1390,7 @@ func (r *runningStep) runStage(forceCloseTimeoutMS int64) error {
 	// The step produced its output: it can no longer crash, fail to deploy or be closed early.
 	// Without this, anything that depends on those stages would wait until every other step ends.
 	doneErr := fmt.Errorf("step %s/%s finished with an output", r.runID, r.pluginStepID)
-	r.stageChangeHandler.OnStepStageFailure(r, string(StageIDDeployFailed), &r.wg, doneErr)
-	r.stageChangeHandler.OnStepStageFailure(r, string(StageIDCrashed), &r.wg, doneErr)
+	r.markStagesImpossible(doneErr, StageIDDeployFailed, StageIDDisabled, StageIDCrashed)
 	r.markNotClosable(doneErr)
 
 	return nil
@@ -1423,6 +1422,15 @@ func (r *runningStep) markNotClosable(err error) {
 	r.stageChangeHandler.OnStepStageFailure(r, string(StageIDClosed), &r.wg, err)
 }
 
+// markStagesImpossible declares that the given stages will not happen for this step any more.
+// Every way a step can end must declare all the stages it did not go through, otherwise whatever
+// depends on one of them stays pending until every other step of the workflow has ended.
+func (r *runningStep) markStagesImpossible(err error, stages ...StageID) {
+	for _, stage := range stages {
+		r.stageChangeHandler.OnStepStageFailure(r, string(stage), &r.wg, err)
+	}
+}
+
 func (r *runningStep) deployFailed(err error) {
 	r.logger.Debugf("Deploy failed stage for step %s/%s", r.runID, r.pluginStepID)
 	r.transitionRunningStage(StageIDDeployFailed)
@@ -1438,6 +1446,7 @@ func (r *runningStep) deployFailed(err error) {
 	err = fmt.Errorf("deployment failed for step %s/%s", r.runID, r.pluginStepID)
 	r.markStageFailures(StageIDEnabling, err)
 	r.markNotClosable(err)
+	r.markStagesImpossible(err, StageIDCrashed)
 }
 
 func (r *runningStep) transitionToDisabled() {
@@ -1461,6 +1470,7 @@ func (r *runningStep) transitionToDisabled() {
 	err := fmt.Errorf("step %s/%s disabled", r.runID, r.pluginStepID)
 	r.markStageFailures(StageIDStarting, err)
 	r.markNotClosable(err)
+	r.markStagesImpossible(err, StageIDDeployFailed, StageIDCrashed)
 }
 
 func (r *runningStep) closedEarly(stageToMarkUnresolvable StageID, priorStageFailed bool) {
@@ -1485,6 +1495,11 @@ func (r *runningStep) closedEarly(stageToMarkUnresolvable StageID, priorStageFai
 
 	err := fmt.Errorf("step %s/%s closed due to workflow termination", r.runID, r.pluginStepID)
 	r.markStageFailures(stageToMarkUnresolvable, err)
+	if stageToMarkUnresolvable != StageIDEnabling {
+		// markStageFailures starts after the disabled stage in these cases.
+		r.markStagesImpossible(err, StageIDDisabled)
+	}
+	r.markStagesImpossible(err, StageIDDeployFailed, StageIDCrashed)
 }
 
 func (r *runningStep) startFailed(err error) {
@@ -1500,6 +1515,7 @@ func (r *runningStep) startFailed(err error) {
 	r.completeStep(StageIDCrashed, step.RunningStepStateFinished, &outputID, &output)
 	r.markStageFailures(StageIDRunning, err)
 	r.markNotClosable(err)
+	r.markStagesImpossible(err, StageIDDeployFailed, StageIDDisabled)
 }
 
 func (r *runningStep) runFailed(err error) {
@@ -1514,6 +1530,7 @@ func (r *runningStep) runFailed(err error) {
 	r.completeStep(StageIDCrashed, step.RunningStepStateFinished, &outputID, &output)
 	r.markStageFailures(StageIDOutput, err)
 	r.markNotClosable(err)
+	r.markStagesImpossible(err, StageIDDeployFailed, StageIDDisabled)
 }
 
 // TransitionStage transitions the running step to the specified stage, and the state running.
